@@ -9,10 +9,11 @@
       * the output wires carry U|psi> up to a scalar (cross-multiplied components), every other wire is back in |0>,
       * every outcome pattern has weight 2^-k (the scalar never vanishes),
     i.e. the converted circuit implements the original on the logical wires for every measurement outcome.
-(B) Pauli tracker.  The online byproduct corrections are removed from the converted circuit and replaced by the corrections the REAL
-    offline tracker computes (_parse_mid_measurements + _get_xz_record on the symbolic outcome bits, which includes
-    commute_clifford_op for every Clifford gate and the physical Pauli gates): the same proportionality is proved, so the recorded
-    frame (x, z) is exactly the byproduct of the uncorrected run, X^x Z^z U|psi>, for every outcome.  commute_clifford_op is
+(B) Pauli tracker.  The online byproduct corrections AND the circuit's own Pauli gates are removed from the converted circuit (Pauli-frame
+    semantics: the tracker's record absorbs both) and replaced by the frame the REAL offline tracker computes (_parse_mid_measurements +
+    _get_xz_record on the symbolic outcome bits, which includes commute_clifford_op for every Clifford gate and the merge of the
+    circuit's Pauli gates): the same proportionality is proved, so the recorded frame (x, z) is exactly what separates the
+    uncorrected run from U|psi>, for every outcome.  commute_clifford_op is
     additionally compared with matrix conjugation C P C^dagger = P' (up to phase) for every Pauli frame of H, S, CNOT.
 """
 from __future__ import annotations
@@ -31,7 +32,7 @@ PN = ["a", "b", "g"]
 
 CIRCUITS = {
     "H": lambda p: [qp.H(0)], "S": lambda p: [qp.S(0)], "RZ(a)": lambda p: [qp.RZ(p[0], 0)], "RotXZX(a,b,g)": lambda p: [RotXZX(p[0], p[1], p[2], 0)],
-    "X.H.Z": lambda p: [qp.X(0), qp.H(0), qp.Z(0)],
+    "X.H.Z": lambda p: [qp.X(0), qp.H(0), qp.Z(0)], "X.S": lambda p: [qp.X(0), qp.S(0)], "H.Y.S": lambda p: [qp.H(0), qp.Y(0), qp.S(0)],
     "RZ(a).H": lambda p: [qp.RZ(p[0], 0), qp.H(0)], "H.S": lambda p: [qp.H(0), qp.S(0)], "S.Y.RotXZX(a,b,g)": lambda p: [qp.S(0), qp.Y(0), RotXZX(p[0], p[1], p[2], 0)],
     "CNOT": lambda p: [qp.CNOT([0, 1])], "CNOT(1,0)": lambda p: [qp.CNOT([1, 0])],
     "H(1).CNOT(0,1)": lambda p: [qp.H(1), qp.CNOT([0, 1])],
@@ -41,8 +42,8 @@ CIRCUITS = {
     "RZ(a,1).CNOT(0,1) (wire recycling)": lambda p: [qp.RZ(p[0], 1), qp.CNOT([0, 1])],
 }
 # circuits for the tracker: only the first gate of a wire may be non-Clifford (documented restriction of the tracker)
-TRACKER = ["H", "S", "RZ(a)", "X.H.Z", "RZ(a).H", "H.S", "H(1).S(0) (wires appear as 1, 0)", "RZ(a,1).H(0).X(1).S(1) (wires appear as 1, 0)", "CNOT", "CNOT(1,0)", "H(1).CNOT(0,1)"]
-HEAVY = {"CNOT", "CNOT(1,0)", "H(1).CNOT(0,1)", "S.Y.RotXZX(a,b,g)", "RZ(a,1).CNOT(0,1) (wire recycling)"}  # minutes per item: thorough tier only
+TRACKER = ["H", "S", "RZ(a)", "X.H.Z", "X.S", "H.Y.S", "RZ(a).H", "H.S", "H(1).S(0) (wires appear as 1, 0)", "RZ(a,1).H(0).X(1).S(1) (wires appear as 1, 0)", "CNOT", "CNOT(1,0)", "H(1).CNOT(0,1)"]
+HEAVY = {"CNOT", "CNOT(1,0)", "H(1).CNOT(0,1)", "S.Y.RotXZX(a,b,g)", "RZ(a,1).CNOT(0,1) (wire recycling)", "RZ(a,1).H(0).X(1).S(1) (wires appear as 1, 0)"}  # minutes per item: thorough tier only
 # number of leading measurements that are symbolic; the remaining ones take the listed constant patterns
 SYMBOLIC_PREFIX = {"RZ(a).H.S.H.S.H (wire recycling)": 4, "RZ(a,1).CNOT(0,1) (wire recycling)": 4}
 
@@ -72,7 +73,9 @@ def run_pattern(cname, p, diag, bit_of, amps, tracker=False, tail=0):
     ops = list(t.operations)
     mcms = [o for o in ops if dynsim.is_mcm(o)]
     if tracker:
-        ops = [o for o in ops if not (dynsim.is_cond(o) and o.base.name in ("PauliX", "PauliZ"))]
+        # Pauli-frame semantics of the offline tracker: neither the byproduct corrections nor the circuit's own Pauli gates are executed;
+        # _get_xz_record merges both into the record (its "branch for Paulis")
+        ops = [o for o in ops if not (dynsim.is_cond(o) and o.base.name in ("PauliX", "PauliZ")) and o.name not in ("PauliX", "PauliY", "PauliZ", "Identity")]
     sim = mbqc.ActiveSim()
     # convert_to_mbqc_formalism places logical wire tape.wires[i] on physical qubit i (QubitMgr hands out 0, 1, ... in tape order)
     sim.load([list(tape.wires).index(w) for w in wires], amps)
@@ -236,6 +239,16 @@ def work(item):
             return ok, {"circuit": cname, "diag": diag, "tracker": tracker, "bits": bits, "params": params, "amps": [[z.real, z.imag] for z in am], "observed": obs}
 
         sig = f"{'tracker' if tracker else 'convert'}:{cname}:diag={diag}"
+        # outcome bits decided by this path's forks (adaptive measurement angles test m == 0) are substituted before the products are formed
+        main, fixed = sx.substitute_fixed_bits(S, list(main))
+        leak, _ = sx.substitute_fixed_bits(S, list(leak))
+        rp0 = rp
+
+        def rp(model):  # noqa: F811
+            model = dict(model)
+            model["vars"] = {**model.get("vars", {}), **{k_: float(v_) for k_, v_ in fixed.items()}}
+            return rp0(model)
+
         n = len(main)
         lhs = [main[i_] * exp[j_] for i_ in range(n) for j_ in range(i_ + 1, n)]
         rhs = [main[j_] * exp[i_] for i_ in range(n) for j_ in range(i_ + 1, n)]
@@ -315,7 +328,15 @@ def commute_work(_):
 
 
 def _dispatch(it):
-    return commute_work(it) if it[0] == "commute" else work(it)
+    import os
+    import time
+
+    t0 = time.time()
+    out = commute_work(it) if it[0] == "commute" else work(it)
+    if os.environ.get("VERIF_TIMING"):
+        with open(os.environ["VERIF_TIMING"], "a") as f:
+            f.write(f"{time.time() - t0:8.1f}s {it} {[r['status'] for r in out]}\n")
+    return out
 
 
 def run(ctx):
